@@ -555,21 +555,18 @@ func (s *engSession) submit(i int, fs []flap.VerifFlight, now uint64, debit bool
 	}
 	subErr := s.eng.SubmitFlights(s.trav[i].pp, real, flap.EpochTime(now), debit)
 	if fault != "" && s.disarm() {
-		// a store call of this check-in failed: it must report an error and change nothing
-		code := engErrCode(subErr)
 		s.stat["checkins_with_storage_fault"]++
-		s.ops = append(s.ops, eOp{"op": "submit", "t": i, "fs": fs, "now": now, "debit": debit, "res": code, "fault": fault})
-		after, hasAfter := s.get(i)
-		if code == 0 {
-			s.fail("C01", "failed-store-call-reported-as-accepted-checkin", fmt.Sprintf("check-in during which the travellers table failed (%s) returned nil", fault))
-			if expectGrounded {
-				s.fail("C02", "grounded-traveller-accepted", fmt.Sprintf("traveller not mid-trip, balance %v, no due kept promise, record unreadable (%s): the check-in at %d was accepted", float64(before.Balance), fault, now))
+		if code := engErrCode(subErr); code != 0 {
+			// a store call of this check-in failed and the check-in reports an error: nothing may have changed
+			// (the model is not asked).  A check-in that SUCCEEDS in spite of the fault - an implementation may
+			// retry - is an ordinary check-in and is judged as one below.
+			s.ops = append(s.ops, eOp{"op": "submit", "t": i, "fs": fs, "now": now, "debit": debit, "res": code, "fault": fault})
+			after, hasAfter := s.get(i)
+			if had != hasAfter || (had && hashTrav(&after) != beforeHash) {
+				s.fail("C01", "refused-checkin-changed-record", fmt.Sprintf("SubmitFlights met a storage failure (%s, result %d) but the traveller record read back afterwards changed", fault, code))
 			}
+			return code
 		}
-		if had != hasAfter || (had && hashTrav(&after) != beforeHash) {
-			s.fail("C01", "refused-checkin-changed-record", fmt.Sprintf("SubmitFlights met a storage failure (%s, result %d) but the traveller record read back afterwards changed", fault, code))
-		}
-		return code
 	}
 	code := engErrCode(subErr)
 	s.coq = append(s.coq, fmt.Sprintf("ESubmit %s %s %d %s %d", s.trav[i].key, coqFlights(fs), now, Bool(debit), code))
@@ -920,8 +917,8 @@ func (s *engSession) propose(i int, fs []flap.VerifFlight, tripEnd, now uint64) 
 			}
 			return code, -1
 		}
-		s.fail("C09", "proposal-ignores-the-promises-made-before", fmt.Sprintf("Propose for a traveller whose stored record holds promises but could not be read (%s) returned a proposal worked out without them", fault))
-		s.fail("C10", "proposal-issued-although-record-unreadable", fmt.Sprintf("Propose for a traveller whose stored record (with promises) could not be read (%s) returned a proposal", fault))
+		// a proposal issued in spite of the failed read (an implementation may retry) is an ordinary proposal: it is
+		// judged below against the stored book and by the model
 	}
 	slot := -1
 	h := uint64(0)
